@@ -242,6 +242,9 @@ class Reasoner:
                     return Lin.const(a.k << b)
                 return Lin.atom(e)
             if op in ("BitAnd", "BitOr", "BitXor", "Shr", "Div", "Rem"):
+                ce = ("bin", op, self.canon(e[2], depth + 1), self.canon(e[3], depth + 1))
+                if ce != e and depth < 25:
+                    return self.lin(ce, depth + 1)
                 a = self.cv(e[2])
                 b = self.cv(e[3])
                 if a is not None and b is not None:
@@ -290,7 +293,7 @@ class Reasoner:
             if ck in ("lossless", "assert") and e[2]:
                 return self.lin(e[2][0], depth + 1)
             if (f.endswith(" as std::convert::From>::from") or f == "std::convert::Into::into"
-                    or f == "std::convert::From::from") and e[2]:
+                    or f == "std::convert::From::from" or f == "std::convert::num::from") and e[2]:
                 # integer widening conversions provided by std are lossless by construction
                 ti = self.ty(e[2][0])
                 if int_range(ti):
@@ -307,6 +310,25 @@ class Reasoner:
             # integers behind shared references (e.g. `&b` in closures / iterators)
             return Lin.atom(e)
         return Lin.atom(e)
+
+    def canon(self, e, depth=0):
+        """canonical form of an operand of a non-linear operator: a constant, or the single atom it
+        is equal to (e.g. len(&*x) -> len(x), x * 1 -> x)"""
+        if e[0] == "c":
+            return e
+        l = self.lin(e, depth + 1)
+        if l is None:
+            return e
+        if l.is_const():
+            t = self.ty(e) or "usize"
+            return ("c", l.k, t, None)
+        if l.k == 0 and len(l.co) == 1:
+            (a, c), = l.co.items()
+            if c == 1:
+                if a != e:
+                    self.ir.ety.setdefault(a, self.ty(e))
+                return a
+        return e
 
     def len_lin(self, x, depth=0):
         """linear form of the length of slice-valued expression x"""
@@ -742,6 +764,14 @@ class Reasoner:
                         ib = self.interval(a[3])
                         if lb is not None and ib and ib[0] >= 0:
                             new.append(Lin.atom(a).sub(lb))
+                if op == "Shr":
+                    k_ = self.cv(a[3])
+                    la = self.lin(a[2])
+                    ia = self.interval(a[2])
+                    if k_ is not None and 0 <= k_ < 64 and la is not None and ia and ia[0] >= 0:
+                        # x - 2^k * A - 2^k + 1 <= 0   and   2^k * A - x <= 0
+                        new.append(la.sub(Lin.atom(a).scale(1 << k_)).sub(Lin.const((1 << k_) - 1)))
+                        new.append(Lin.atom(a).scale(1 << k_).sub(la))
                 if op == "Rem":
                     lb = self.lin(a[3])
                     ia = self.interval(a[2])
